@@ -785,6 +785,13 @@ theorem C19_compose_correct {V : Type} [PyVal V] (c : ECfg V) (hwf : WF c) (ins 
     den (composeCfg c ins outs vals) o = den (withInputs c ins vals) o :=
   VM.C19_compose_correct c hwf ins outs vals o ho
 
+/-- C19, the returned tuple: one value per requested output, in request order (an output named several times — or through several
+    aliases — is returned as many times), each the value the original pipeline computes from the supplied inputs. -/
+theorem C19_compose_return {V : Type} [PyVal V] (c : ECfg V) (hwf : WF c) (ins outs : List TM.Node) (vals : List V) :
+    composeReturn c ins outs vals = outs.map (den (withInputs c ins vals)) ∧
+    (composeReturn c ins outs vals).length = outs.length :=
+  VM.C19_compose_return c hwf ins outs vals
+
 /-- C17 (a): AsyncDAG equals DAG.  Both flavours run the same scheduler over the same table; whatever
     attributes, `max_concurrency` and completion orders the two executions had, if both return they hold
     the same result on every node (same return value, same setup results recorded) and started exactly the
